@@ -23,7 +23,7 @@
 (* An outcome is [rej, splits, cutoffs, nsplits]; splits is a sequence of  *)
 (* [train |-> Seq(Int), test |-> Seq(Int)].                                *)
 (***************************************************************************)
-EXTENDS Integers, Sequences, FiniteSets, TLC
+EXTENDS Integers, Sequences, FiniteSets, TLC, SequencesExt
 
 NONE == 0
 
@@ -75,14 +75,17 @@ SingleOutcome(c) ==
     Accepted(<< [train |-> (IF c.wl = NONE THEN Run(0, cut) ELSE Run(Max2(0, cut - c.wl + 1), cut)),
                  test  |-> Shift(cut, c.fh)] >>, << cut >>)
 
-(* Given cutoffs.                                                          *)
+(* Given cutoffs: validated cutoffs are sorted (check_cutoffs: "Returns      *)
+(* cutoffs (Sorted array)"), splits are yielded in that temporal order.       *)
+SortedCuts(c) == SetToSortSeq({c.cuts[i] : i \in DOMAIN c.cuts}, <)
 CutoffReject(c) == \/ SeqMax(c.cuts) >= c.n
                    \/ SeqMax(c.cuts) + LastOf(c.fh) > c.n - 1
 CutoffOutcome(c) ==
     IF CutoffReject(c) THEN Rejected
-    ELSE Accepted([k \in DOMAIN c.cuts |->
-                      [train |-> Run(Max2(0, c.cuts[k] - c.wl + 1), c.cuts[k]),
-                       test  |-> Shift(c.cuts[k], c.fh)]], c.cuts)
+    ELSE LET cs == SortedCuts(c) IN
+         Accepted([k \in DOMAIN cs |->
+                      [train |-> Run(Max2(0, cs[k] - c.wl + 1), cs[k]),
+                       test  |-> Shift(cs[k], c.fh)]], cs)
 
 (* temporal_train_test_split by sizes (documented: unshuffled wrapper of   *)
 (* scikit-learn's train_test_split: float = proportion, test rounded up,   *)
